@@ -193,3 +193,129 @@ proof fn lemma_last_nl_props(sk: Seq<char>)
 {
     if sk.len() > 0 && sk.last() != '\n' { lemma_last_nl_props(sk.drop_last()); }
 }
+
+// ---- whitespace skipping as a function of the remaining text ----
+spec fn is_tws(c: char) -> bool { c == ' ' || ('\u{9}' <= c && c <= '\u{d}') }
+/// number of leading template-whitespace characters of t
+spec fn ws_len(t: Seq<char>) -> int
+    decreases t.len(),
+{
+    if t.len() > 0 && is_tws(t[0]) { 1 + ws_len(t.skip(1)) } else { 0 }
+}
+/// index of the first `*/` in t at or after i, or -1
+spec fn comment_end(t: Seq<char>, i: int) -> int
+    decreases t.len() - i,
+{
+    if i < 0 || i + 1 >= t.len() { -1 } else if t[i] == '*' && t[i + 1] == '/' { i } else { comment_end(t, i + 1) }
+}
+/// number of characters that skip_whitespace_with_js_comments consumes from t
+spec fn ws_js_len(t: Seq<char>) -> int
+    decreases t.len(),
+{
+    let j = ws_len(t);
+    if j < 0 || j > t.len() { 0 }
+    else if j > 0 { j + ws_js_len(t.skip(j)) }
+    else if t.len() >= 2 && t[0] == '/' && t[1] == '*' {
+        let k = comment_end(t, 2);
+        if k < 2 || k + 2 > t.len() { t.len() as int } else { k + 2 + ws_js_len(t.skip(k + 2)) }
+    } else { 0 }
+}
+impl<'s> ParseState<'s> {
+    /// how far the automatic whitespace skipping of next/peek*/consume_str moves first
+    spec fn auto_len(&self) -> int { if self.auto_skip_whitespace.is_some() { ws_js_len(self.rest()) } else { 0 } }
+}
+/// call through the stored fn pointer (only skip_whitespace_with_js_comments is ever stored there): ASSUMED to do what
+/// that function does
+#[verifier::external_body]
+fn vx_call_ws(f: WsFn, ps: &mut ParseState) -> (r: Option<Range<Position>>)
+    requires old(ps).wf(), old(ps).fits(),
+    ensures final(ps).advanced(old(ps), ws_js_len(old(ps).rest())),
+{ unimplemented!() }
+proof fn lemma_advanced_trans(a: &ParseState, b: &ParseState, c: &ParseState, k1: int, k2: int)
+    requires b.advanced(a, k1), c.advanced(b, k2), a.wf(),
+    ensures c.advanced(a, k1 + k2),
+{
+    lemma_ci(a); lemma_ci(b); lemma_ci(c);
+    let r = a.rest();
+    assert(b.rest() =~= r.skip(k1));
+    assert(r.take(k1 + k2) =~= r.take(k1) + b.rest().take(k2));
+    lemma_adv_split(a.line as int, a.utf16_col as int, r.take(k1), b.rest().take(k2));
+}
+proof fn lemma_adv_split(line: int, col: int, a: Seq<char>, b: Seq<char>)
+    ensures
+        adv_line(line, a + b) == adv_line(adv_line(line, a), b),
+        adv_col(col, a + b) == adv_col(adv_col(col, a), b),
+    decreases a.len(),
+{
+    if a.len() == 0 {
+        assert(a + b =~= b);
+    } else {
+        assert((a + b).skip(1) =~= a.skip(1) + b);
+        lemma_adv_split(if a[0] == '\n' { line + 1 } else { line }, if a[0] == '\n' { 0 } else { col + utf16_len(a[0]) }, a.skip(1), b);
+    }
+}
+/// moving by nothing is a (trivial) advance
+proof fn lemma_advanced_refl(a: &ParseState)
+    requires a.wf(),
+    ensures a.advanced(a, 0),
+{
+    lemma_ci(a);
+    assert(a.rest().take(0) =~= Seq::<char>::empty());
+}
+/// the facts `next` needs about the single character it steps over
+proof fn lemma_one_char(ps: &ParseState)
+    requires ps.wf(), ps.fits(), ps.rest().len() > 0,
+    ensures ({
+        let r0 = ps.rest();
+        let c = r0[0];
+        &&& is_boundary(r0, boff(r0, 1)) && bi(r0, boff(r0, 1)) == 1 && boff(r0, 1) == utf8_len(c) && boff(r0, 1) >= 1
+        &&& r0.take(1) == seq![c]
+        &&& adv_line(ps.line as int, seq![c]) == (if c == '\n' { ps.line + 1 } else { ps.line as int })
+        &&& adv_col(ps.utf16_col as int, seq![c]) == (if c == '\n' { 0 } else { ps.utf16_col + utf16_len(c) })
+        &&& count_nl(seq![c]) == (if c == '\n' { 1int } else { 0int }) && u16len(seq![c]) == utf16_len(c)
+        &&& (r0.len() == 1 ==> boff(r0, r0.len() as int) == boff(r0, 1))
+    }),
+{
+    let r0 = ps.rest();
+    let c = r0[0];
+    assert(boff(r0, 1) == boff(r0, 0) + utf8_len(r0[0]));
+    assert(boff(r0, 0) == 0);
+    assert forall|i: int| 0 <= i <= r0.len() && #[trigger] boff(r0, i) == boff(r0, 1) implies i == 1 by { lemma_boff_inj(r0, i, 1); }
+    assert(r0.take(1) =~= seq![c]);
+    reveal_with_fuel(adv_line, 2);
+    reveal_with_fuel(adv_col, 2);
+    assert(seq![c].skip(1) =~= Seq::<char>::empty());
+    assert(seq![c].drop_last() =~= Seq::<char>::empty());
+    reveal_with_fuel(count_nl, 2);
+    reveal_with_fuel(u16len, 2);
+}
+proof fn lemma_ws_len(t: Seq<char>, k: int)
+    requires 0 <= k <= t.len(), forall|j: int| 0 <= j < k ==> is_tws(#[trigger] t[j]), k == t.len() || !is_tws(t[k]),
+    ensures ws_len(t) == k,
+    decreases k,
+{
+    if k > 0 {
+        assert(is_tws(t[0]));
+        assert forall|j: int| 0 <= j < k - 1 implies is_tws(#[trigger] t.skip(1)[j]) by { assert(t.skip(1)[j] == t[j + 1]); }
+        if k < t.len() { assert(t.skip(1)[k - 1] == t[k]); }
+        lemma_ws_len(t.skip(1), k - 1);
+    }
+}
+/// bookkeeping of one more whitespace character inside skip_whitespace's loop
+proof fn lemma_ws_step(line: int, col: int, r0: Seq<char>, k: int)
+    requires 0 <= k < r0.len(),
+    ensures
+        adv_line(line, r0.take(k + 1)) == (if r0[k] == '\n' { adv_line(line, r0.take(k)) + 1 } else { adv_line(line, r0.take(k)) }),
+        adv_col(col, r0.take(k + 1)) == (if r0[k] == '\n' { 0 } else { adv_col(col, r0.take(k)) + utf16_len(r0[k]) }),
+        count_nl(r0.skip(k)) == count_nl(r0.skip(k + 1)) + (if r0[k] == '\n' { 1int } else { 0int }),
+        u16len(r0.skip(k)) == u16len(r0.skip(k + 1)) + utf16_len(r0[k]),
+        count_nl(r0.skip(k + 1)) >= 0, u16len(r0.skip(k + 1)) >= 0,
+{
+    assert(r0.take(k + 1) =~= r0.take(k).push(r0[k]));
+    lemma_adv_push(line, col, r0.take(k), r0[k]);
+    assert(r0.skip(k) =~= seq![r0[k]] + r0.skip(k + 1));
+    lemma_count_split(seq![r0[k]], r0.skip(k + 1));
+    reveal_with_fuel(count_nl, 2);
+    reveal_with_fuel(u16len, 2);
+    assert(seq![r0[k]].drop_last() =~= Seq::<char>::empty());
+}
